@@ -74,7 +74,7 @@ let print_event = function
   | EvNotify (l, k, payload, seen) ->
     Printf.printf "notify %d %s%s seen %s\n" (int_of_nat l) (kind_name k) (zs payload)
       (match seen with Some v -> string_of_int (int_of_z v) | None -> "-")
-  | EvFn f -> Printf.printf "fn %d\n" (int_of_nat f)
+  | EvFn f -> if int_of_nat f < 100 then Printf.printf "fn %d\n" (int_of_nat f)   (* ids >= 100: the library's own operators, not instrumented *)
   | EvVal (Some v) -> Printf.printf "val %d\n" (int_of_z v)
   | EvVal None -> print_string "val -\n"
   | EvDone None -> print_string "done ok\n"
